@@ -641,6 +641,17 @@ func (s *sim) resolve(empty bool, cfg *pb.ApiConfig, withCfg bool) {
 	s.resolvingEmpty = false
 	s.addrs = newAddrs
 	if !s.completed(h, st, "resolver update") {
+		if s.viol != nil && !s.hostile && (s.viol.Rule == "C06.deadlock" || s.viol.Rule == "C06.stuck") {
+			// a resolver update that never returns also breaks what C03 / C20 promise about its effect
+			switch {
+			case s.prop == "C03" && !s.resolved && !empty:
+				s.viol.Sig, s.viol.Rule = "C03.initial:update-blocked:"+strings.TrimPrefix(s.viol.Sig, "C06."), "C03.initial"
+				s.viol.Detail = "the first non-empty resolver update never returned, the pool was not established: " + s.viol.Detail
+			case s.prop == "C20":
+				s.viol.Sig, s.viol.Rule = "C20.addr:update-blocked:"+strings.TrimPrefix(s.viol.Sig, "C06."), "C20.addr"
+				s.viol.Detail = "the resolver update never returned, its addresses did not reach the pool: " + s.viol.Detail
+			}
+		}
 		if st == vParked {
 			s.fail("C06.blocked", "resolve", "resolver update parked (state %q) %s", h.state, vRepoChain(h.frames, simPkg))
 			s.dead = true
@@ -1563,13 +1574,20 @@ func (s *sim) finish(i int, outcome string, replyKeys []string) {
 
 // replyKeysFor: keys the BIND method's key path finds in the reply.
 func (s *sim) replyKeysFor(c *simCall, replyKeys []string) []string {
-	if len(replyKeys) == 0 || c.ctx.gc == nil {
+	if len(replyKeys) == 0 || c.ctx.gc == nil || s.methods[c.method].path == "" {
 		return nil
 	}
-	if s.methods[c.method].path == "keys" {
-		return replyKeys
+	if s.methods[c.method].path != "keys" {
+		replyKeys = replyKeys[:1]
 	}
-	return replyKeys[:1]
+	// an empty string is "no affinity key": binding it has no observable effect
+	var r []string
+	for _, k := range replyKeys {
+		if k != "" {
+			r = append(r, k)
+		}
+	}
+	return r
 }
 
 func minU32(a, b uint32) uint32 {
@@ -2137,7 +2155,8 @@ func (s *sim) stepPick() {
 		methods = append(methods, "/v/plain", "/v/plain", "/v/plain", "/v/plain")
 	}
 	if s.bias["rr"] {
-		methods = append(methods, "/v/bind", "/v/bind", "/v/bind", "/v/bindmany")
+		// (a BIND method is a BIND call whatever its key locator, also an empty one)
+		methods = append(methods, "/v/bind", "/v/bind", "/v/bind", "/v/bindmany", "/v/bindempty")
 	}
 	method := methods[rng.Intn(len(methods))]
 	key := simKeys[rng.Intn(len(simKeys))]
@@ -2236,6 +2255,11 @@ func (s *sim) stepDone() {
 	}
 	if s.hostile && rng.Chance(15) {
 		keys = nil
+	}
+	if len(keys) > 0 && rng.Chance(3) {
+		// a BIND reply whose key field is the empty string
+		keys[rng.Intn(len(keys))] = ""
+		s.hit("C02.empty-reply-key")
 	}
 	s.finish(i, out, keys)
 }
@@ -2349,7 +2373,7 @@ func TestVerifPoolSim(t *testing.T) {
 		if s.stuck {
 			nStuck++
 		}
-		if s.dead && s.viol != nil && (s.viol.Rule == "C06.deadlock" || s.viol.Rule == "C06.lock-held") {
+		if s.dead && s.viol != nil {
 			nDead++
 		}
 		if s.hostile && s.opCount >= 10 {
